@@ -577,6 +577,36 @@ func TestSentinelsThroughControlPlane(t *testing.T) {
 				expectAt("antispoof.Manager.AddBinding", "value-bytes", raw, vt, "ipv6_valid", []byte{1}, "", w)
 			}
 		}
+		// allowed ranges: the LPM key the program builds is {prefixlen (host order), ip->saddr (network order)}; the
+		// control plane must write the network address under exactly those bytes, for every prefix length
+		for _, cidr := range []string{"172.16.0.0/12", "100.64.0.0/10", "10.1.2.3/32", "192.168.0.0/17", "10.20.0.0/16", "203.0.113.64/27", "128.0.0.0/1", "10.200.77.0/23"} {
+			_, n, _ := net.ParseCIDR(cidr)
+			wr := map[string]any{"api": "antispoof.Manager.AddAllowedRange(" + cidr + ")"}
+			if err := mgr.AddAllowedRange(n); err != nil {
+				run.Violation("antispoof.Manager.AddAllowedRange", "put-succeeds", "put-failed", err.Error(), wr)
+				continue
+			}
+			ones, _ := n.Mask.Size()
+			want := append(le(uint32(ones)), []byte(n.IP.To4())...)
+			var val []byte
+			run.Eval()
+			run.Count("allowed_range_keys_compared", 1)
+			run.Nontrivial("lpmkey|" + cidr)
+			if err := ka.Coll.Maps["allowed_ranges_v4"].Lookup(want, &val); err != nil {
+				var have []string
+				kb := make([]byte, 8)
+				vb := make([]byte, ka.Coll.Maps["allowed_ranges_v4"].ValueSize())
+				it := ka.Coll.Maps["allowed_ranges_v4"].Iterate()
+				for it.Next(&kb, &vb) {
+					have = append(have, fmt.Sprintf("%x", kb))
+				}
+				cls := "prefix-length-multiple-of-8"
+				if ones%8 != 0 {
+					cls = "prefix-length-not-multiple-of-8"
+				}
+				run.Violation("antispoof.Manager.AddAllowedRange", "key-bytes", "lpm-key-differs/"+cls, fmt.Sprintf("%s: no entry under the key the program's trie lookup matches (%x = prefixlen %d + network address in wire order); the map holds %v", cidr, want, ones, have), wr)
+			}
+		}
 		run.Eval()
 		if _, err := mgr.GetStats(); err != nil {
 			run.Violation("antispoof.Manager.GetStats", "read-back", "getter-fails", "GetStats on the object's antispoof_stats: "+err.Error(), nil)
@@ -808,3 +838,115 @@ func hl(h int) string {
 
 var _ = sort.Strings
 var _ = time.Now
+
+// TestKeysEndToEnd: every keyed cache entry is written through the real control-plane call and then looked for
+// by the real program on a frame that should hit it: the lookup log must show a hit. This judges the writer's key
+// bytes (whatever helper or packing it uses), not only the key type it is declared with.
+func TestKeysEndToEnd(t *testing.T) {
+	k, err := cplane.LoadKernel("dhcp_fastpath")
+	if err != nil {
+		return // reported by TestSentinelsThroughControlPlane
+	}
+	defer k.Close()
+	nat_, err := cplane.Start("dhcp_fastpath", os.Getenv("VERIF_BUILD")+"/C06.e2e.journal")
+	if err != nil {
+		t.Fatal(err)
+	}
+	defer nat_.Close()
+	rng := run.Rand("e2e")
+	n := run.Pick(120, 3000)
+	hit := func(res *cplane.Result, m string) (looked, found bool, key []byte) {
+		for _, a := range res.Log {
+			if a.Map == m && a.Op == 'l' {
+				looked = true
+				key = a.Key
+				if a.Hit {
+					found = true
+				}
+			}
+		}
+		return
+	}
+	for i := 0; i < n; i++ {
+		for _, m := range k.Coll.Maps {
+			if m.Type() == ebpf.Hash {
+				var keys [][]byte
+				kb := make([]byte, m.KeySize())
+				vb := make([]byte, m.ValueSize())
+				it := m.Iterate()
+				for it.Next(&kb, &vb) {
+					keys = append(keys, append([]byte(nil), kb...))
+				}
+				for _, kk := range keys {
+					m.Delete(kk)
+				}
+			}
+		}
+		ld, _ := bngebpf.NewLoader("lo", zap.NewNop())
+		ld.VerifSetMaps(k.Coll.Maps)
+		pa := &bngebpf.PoolAssignment{PoolID: 1, AllocatedIP: bngebpf.IPToMapUint32(net.IPv4(10, 20, 30, 40)), LeaseExpiry: ^uint64(0) >> 1}
+		mac := net.HardwareAddr{0x02, byte(rng.IntN(256)), byte(rng.IntN(256)), byte(rng.IntN(256)), byte(rng.IntN(256)), byte(rng.IntN(256))}
+		stranger := make([]byte, 16)
+		copy(stranger, net.HardwareAddr{0x06, 9, 9, byte(rng.IntN(256)), byte(rng.IntN(256)), byte(i)})
+		st, ct := uint16(1+rng.IntN(4094)), uint16(1+rng.IntN(4094))
+		cl := 1 + rng.IntN(32)
+		cid := make([]byte, cl)
+		for j := range cid {
+			cid[j] = byte(1 + rng.IntN(255))
+		}
+		var frame []byte
+		var mapName, api, cls string
+		switch i % 3 {
+		case 0:
+			ld.AddVLANSubscriber(st, ct, pa)
+			frame = dhcpDiscover(stranger, 6, [][2]uint16{{[]uint16{0x88a8, 0x8100}[rng.IntN(2)], st}, {0x8100, ct}}, nil)
+			mapName, api, cls = "vlan_subscriber_pools", fmt.Sprintf("Loader.AddVLANSubscriber(%d,%d)", st, ct), "vlan-pair"
+		case 1:
+			ld.AddCircuitIDSubscriber(cid, pa)
+			frame = dhcpDiscoverOpts(stranger, 6, nil, cid, nil, []byte{2, 3, 'r', 'i', 'd'})
+			mapName, api, cls = "circuit_id_subscribers", fmt.Sprintf("Loader.AddCircuitIDSubscriber(%x)", cid), "circuit-id"
+		default:
+			ld.AddSubscriber(bngebpf.MACToUint64(mac), pa)
+			ch := make([]byte, 16)
+			copy(ch, mac)
+			frame = dhcpDiscover(ch, 6, nil, nil)
+			mapName, api, cls = "subscriber_pools", fmt.Sprintf("Loader.AddSubscriber(MACToUint64(%v))", mac), "mac"
+		}
+		nat_.Reset()
+		var written []string
+		for name, m := range k.Coll.Maps {
+			mi, ok := nat_.Map(name)
+			if !ok || mi.KeySize == 0 || m.Type() != ebpf.Hash {
+				continue
+			}
+			kb := make([]byte, m.KeySize())
+			vb := make([]byte, m.ValueSize())
+			it := m.Iterate()
+			for it.Next(&kb, &vb) {
+				nat_.Write(name, kb, vb, 0)
+				if name == mapName {
+					written = append(written, fmt.Sprintf("%x", kb))
+				}
+			}
+		}
+		res, err := nat_.Run("dhcp_fastpath_prog", frame, cplane.RunOpt{})
+		if err != nil {
+			run.Violation("bpf/dhcp_fastpath.c", "memory-safety", "sanitizer-or-guard-fault", err.Error(), fmt.Sprintf("%x", frame))
+			return
+		}
+		run.Eval()
+		looked, found, key := hit(res, mapName)
+		if !looked {
+			run.Count("e2e_key_not_looked_up_"+cls, 1)
+			continue
+		}
+		run.Count("e2e_keys_judged_"+cls, 1)
+		run.Nontrivial(fmt.Sprintf("e2e|%s|%d", cls, i))
+		if !found {
+			run.Violation("ebpf.Loader", "written-entry-is-found-by-the-program", "entry-written-by-control-plane-not-found/"+cls, fmt.Sprintf("%s wrote key(s) %v into %s; the program, on the frame of that subscriber, looks up %x and finds nothing", api, written, mapName, key), fmt.Sprintf("%x", frame))
+		}
+	}
+	run.Floor("e2e_keys_judged_vlan-pair", 20)
+	run.Floor("e2e_keys_judged_circuit-id", 20)
+	run.Floor("e2e_keys_judged_mac", 20)
+}
